@@ -332,11 +332,7 @@ def _{name}_array(self, other):
 """
 
 def default_range(slice, max):
-    return range(
-        0 if slice.start is None else slice.start,
-        max if slice.stop is None else slice.stop, 
-        1 if slice.step is None else slice.step,
-    )
+    return range(*slice.indices(max)) # Clips to the size, wraps negative bounds and supports negative steps as NumPy does
 
 def unpack_index(index, ndim):
     indim = len(index)
@@ -439,7 +435,7 @@ def sparse(arr, copy=False, vector_size=None):
     
     """
     if arr.__class__ in SparseSet:
-        return arr
+        return arr.copy() if copy else arr
     else:
         ndim = get_ndim(arr)
         if ndim == 1:
@@ -601,6 +597,8 @@ class SparseArray:
     
     def copy_like(self, other):
         rows = self.rows
+        for i in rows:
+            if getattr(i, 'read_only', False): raise ValueError('assignment destination is read-only')
         for i, j in zip(rows, other.rows):
             i.copy_like(j)
     
@@ -774,7 +772,9 @@ class SparseArray:
                     raise IndexError(f'row index can be at most 1-d, not {md}-d')
                     
             else:
-                md = get_ndim(m)
+                md, misbool = get_array_properties(m)
+                if md == 1 and misbool: m = [i for i, j in enumerate(m) if j] # Boolean row mask: the selected row positions
+                if get_array_properties(n) == (1, True): n = [i for i, j in enumerate(n) if j]
                 if md == 0: 
                     return rows[m][n]
                 elif md == 1: 
@@ -885,7 +885,9 @@ class SparseArray:
                 else:
                     raise IndexError(f'row index can be at most 1-d, not {md}-d')
             else:
-                md = get_ndim(m)
+                md, misbool = get_array_properties(m)
+                if md == 1 and misbool: m = [i for i, j in enumerate(m) if j] # Boolean row mask: the selected row positions
+                if get_array_properties(n) == (1, True): n = [i for i, j in enumerate(n) if j]
                 if md == 0: 
                     rows[m][n] = value
                 elif md == 1: 
